@@ -295,6 +295,147 @@ fn structural(t: &Template, out: &mut dyn FnMut(String, Vec<u8>)) {
     }
 }
 
+/// Hostile *contents* of the right bencode type: long multi-byte (and invalid) UTF-8 wherever the
+/// code reads text, keys that are not curve points, ids / addresses that are the receiver's own,
+/// zero ports, extreme integers, the longest lists a datagram can carry.
+fn content_variants(t: &Template, out: &mut dyn FnMut(String, Vec<u8>)) {
+    let own_id: Id20 = [0x21; 20];
+    let own_addr = SocketAddrV4::new(Ipv4Addr::new(9, 9, 9, 9), 7000);
+    let mut texts: Vec<(String, Vec<u8>)> = vec![];
+    // every byte offset falls inside a multi-byte character for one of these strings
+    for (name, ch, width) in [("2-byte", "é", 2usize), ("3-byte", "€", 3), ("4-byte", "😀", 4)] {
+        for pad in 0..width {
+            let mut v = vec![b'e'; pad];
+            while v.len() + width <= 1500 {
+                v.extend_from_slice(ch.as_bytes());
+            }
+            texts.push((format!("{name}-chars+{pad}"), v));
+        }
+    }
+    texts.push(("invalid-utf8".into(), vec![0xFF; 300]));
+    texts.push(("lone-continuation-bytes".into(), vec![0x80; 300]));
+    texts.push(("truncated-multibyte-at-end".into(), { let mut v = vec![b'a'; 126]; v.extend_from_slice(&[0xE2, 0x82]); v }));
+    texts.push(("nul-bytes".into(), vec![0u8; 200]));
+    let keys32: Vec<(&str, Vec<u8>)> = vec![
+        ("k-zero", vec![0u8; 32]),
+        ("k-not-on-curve", { let mut k = vec![0u8; 32]; k[0] = 2; k }),
+        ("k-identity", { let mut k = vec![0u8; 32]; k[0] = 1; k }),
+        ("k-ff", vec![0xFF; 32]),
+        ("k-small-order", { let mut k = vec![0u8; 32]; k[31] = 0x80; k }),
+    ];
+    let sigs: Vec<(&str, Vec<u8>)> = vec![("sig-zero", vec![0u8; 64]), ("sig-ff", vec![0xFF; 64]), ("sig-s-too-large", { let mut s = vec![1u8; 64]; for b in s[32..].iter_mut() { *b = 0xFF; } s })];
+    let ints: Vec<(&str, i128)> = vec![("i64-min", i64::MIN as i128), ("i64-max", i64::MAX as i128), ("u64-max", u64::MAX as i128), ("below-i64", i64::MIN as i128 - 1), ("zero", 0), ("65536", 65536), ("u32-max", u32::MAX as i128)];
+    let node_lists: Vec<(&str, Vec<u8>)> = {
+        let n = |id: Id20, a: SocketAddrV4| krpc::compact_nodes(&[(id, a)]);
+        vec![
+            ("nodes-own-id-own-addr", n(own_id, own_addr)),
+            ("nodes-own-addr", n([7; 20], own_addr)),
+            ("nodes-port0", n([7; 20], SocketAddrV4::new(Ipv4Addr::new(50, 1, 1, 1), 0))),
+            ("nodes-unspecified-ip", n([7; 20], SocketAddrV4::new(Ipv4Addr::UNSPECIFIED, 6881))),
+            ("nodes-broadcast-ip", n([7; 20], SocketAddrV4::new(Ipv4Addr::BROADCAST, 6881))),
+            ("nodes-loopback", n([7; 20], SocketAddrV4::new(Ipv4Addr::LOCALHOST, 7000))),
+            ("nodes-duplicates", { let mut v = n([7; 20], SocketAddrV4::new(Ipv4Addr::new(50, 1, 1, 1), 1)); let c = v.clone(); for _ in 0..30 { v.extend_from_slice(&c); } v }),
+            ("nodes-70", nodes26(70)),
+        ]
+    };
+    let mut emit = |label: String, m: B| out(format!("{}:{label}", t.name), encode(&m));
+    let set_in = |container: &str, key: &str, v: B| -> Option<B> {
+        let mut m = t.msg.clone();
+        if container.is_empty() {
+            m.get(key)?;
+            m.set(key, v);
+        } else {
+            let B::Dict(top) = &mut m else { return None };
+            let c = &mut top.iter_mut().find(|(k, _)| k == container.as_bytes())?.1;
+            c.get(key)?;
+            c.set(key, v);
+        }
+        Some(m)
+    };
+    for (container, key) in &t.fields {
+        let orig = if container.is_empty() { t.msg.get(key) } else { t.msg.get(container).and_then(|c| c.get(key)) };
+        let Some(orig) = orig.cloned() else { continue };
+        match (&orig, *key) {
+            (B::Bytes(_), "k") => {
+                for (n, k) in &keys32 {
+                    if let Some(m) = set_in(container, key, B::bytes(k)) { emit(format!("{container}.{key}=content/{n}"), m); }
+                }
+            }
+            (B::Bytes(_), "sig") => {
+                for (n, k) in &sigs {
+                    if let Some(m) = set_in(container, key, B::bytes(k)) { emit(format!("{container}.{key}=content/{n}"), m); }
+                }
+            }
+            (B::Bytes(b), "id" | "target" | "info_hash") if b.len() == 20 => {
+                for (n, v) in [("own-id", own_id.to_vec()), ("zero-id", vec![0u8; 20]), ("ff-id", vec![0xFF; 20])] {
+                    if let Some(m) = set_in(container, key, B::bytes(v)) { emit(format!("{container}.{key}=content/{n}"), m); }
+                }
+            }
+            (B::Bytes(_), "nodes") => {
+                for (n, v) in &node_lists {
+                    if let Some(m) = set_in(container, key, B::bytes(v)) { emit(format!("{container}.{key}=content/{n}"), m); }
+                }
+            }
+            (B::Bytes(_), "ip") => {
+                for (n, v) in [("own-addr", krpc::compact_addr(&own_addr).to_vec()), ("zero-addr", vec![0u8; 6]), ("ipv6-18-bytes", vec![0x20; 18]), ("ff-addr", vec![0xFF; 6])] {
+                    if let Some(m) = set_in(container, key, B::bytes(v)) { emit(format!("{container}.{key}=content/{n}"), m); }
+                }
+            }
+            (B::Bytes(_), "token") => {
+                for (n, v) in [("1-byte", vec![1u8; 1]), ("255-bytes", vec![2u8; 255]), ("1000-bytes", vec![3u8; 1000])] {
+                    if let Some(m) = set_in(container, key, B::bytes(v)) { emit(format!("{container}.{key}=content/token-{n}"), m); }
+                }
+            }
+            (B::Bytes(_), "q" | "y" | "v" | "salt") => {
+                for (n, v) in texts.iter().take(12) {
+                    let v: Vec<u8> = if *key == "salt" { v.iter().take(64).copied().collect() } else { v.iter().take(300).copied().collect() };
+                    if let Some(m) = set_in(container, key, B::bytes(v)) { emit(format!("{container}.{key}=content/text-{n}"), m); }
+                }
+            }
+            (B::Int(_), _) => {
+                for (n, v) in &ints {
+                    if let Some(m) = set_in(container, key, B::Int(*v)) { emit(format!("{container}.{key}=content/int-{n}"), m); }
+                }
+            }
+            (B::List(_), "values") => {
+                let port0 = B::bytes(krpc::compact_addr(&SocketAddrV4::new(Ipv4Addr::new(1, 2, 3, 4), 0)));
+                let own = B::bytes(krpc::compact_addr(&own_addr));
+                let many = B::List((0..200u32).map(|i| B::bytes([10, (i >> 8) as u8, i as u8, 1, 0x1A, 0xE1])).collect());
+                for (n, v) in [("port0", B::List(vec![port0])), ("own-addr", B::List(vec![own])), ("200-values", many)] {
+                    if let Some(m) = set_in(container, key, v) { emit(format!("{container}.{key}=content/values-{n}"), m); }
+                }
+            }
+            (B::List(_), "e") => {
+                for (n, text) in &texts {
+                    if let Some(m) = set_in(container, key, B::List(vec![B::Int(203), B::bytes(text)])) { emit(format!(".e=content/description-{n}"), m); }
+                }
+                for (n, v) in [
+                    ("code-only", B::List(vec![B::Int(203)])),
+                    ("three-elements", B::List(vec![B::Int(203), B::bytes("m"), B::bytes("x")])),
+                    ("swapped", B::List(vec![B::bytes("m"), B::Int(203)])),
+                    ("code-i64-min", B::List(vec![B::Int(i64::MIN as i128), B::bytes("m")])),
+                    ("code-u64-max", B::List(vec![B::Int(u64::MAX as i128), B::bytes("m")])),
+                    ("empty-description", B::List(vec![B::Int(203), B::bytes("")])),
+                ] {
+                    if let Some(m) = set_in(container, key, v) { emit(format!(".e=content/{n}"), m); }
+                }
+            }
+            _ => {}
+        }
+    }
+}
+
+/// The write-shaped datagram with the token replaced by one the receiving server has just issued
+/// to the sender (so that the request gets past the token check and its payload is looked at).
+fn with_token(bytes: &[u8], token: &[u8]) -> Option<Vec<u8>> {
+    let (mut tree, _) = crate::bencode::decode(bytes).ok()?;
+    let B::Dict(top) = &mut tree else { return None };
+    let a = &mut top.iter_mut().find(|(k, _)| k == b"a")?.1;
+    a.get("token")?.as_bytes()?;
+    a.set("token", B::bytes(token));
+    Some(encode(&tree))
+}
+
 fn class_of(label: &str) -> String {
     // template + deviation classes without field positions: the finding key
     let (tpl, rest) = label.split_once(':').unwrap_or((label, ""));
@@ -350,6 +491,7 @@ fn live_unsolicited(server: bool, grams: &[(String, Vec<u8>)], out: &mut Partial
         let a = w.add_node(if server { cfg.server() } else { cfg });
         let a_addr = w.node_addr(a);
         let stranger = SocketAddrV4::new(Ipv4Addr::new(77, 7, 7, 7), 7777);
+        let stranger_ep = w.add_endpoint(stranger);
         let h = w.now + 2 * SEC;
         w.run_until(h, |w, ev| {
             if let Event::EndpointRecv { ep, dgram } = ev {
@@ -357,6 +499,28 @@ fn live_unsolicited(server: bool, grams: &[(String, Vec<u8>)], out: &mut Partial
             }
             false
         });
+        // a write token the server issues to the stranger (writes are then delivered twice: as
+        // generated, and with this token, so that the payload behind the token check is reached)
+        let mut token: Option<Vec<u8>> = None;
+        if server {
+            w.send_raw_with_latency(stranger, a_addr, krpc::q_get_peers(&[8, 8, 8, 8], &ID_A, &ID_B, false), MS);
+            let h = w.now + 20 * MS;
+            w.run_until(h, |w, ev| {
+                if let Event::EndpointRecv { ep, dgram } = ev {
+                    if *ep == stranger_ep {
+                        if let Some(k) = Krpc::parse(&dgram.bytes) {
+                            if k.t == [8, 8, 8, 8] {
+                                token = k.res_bytes("token").map(|t| t.to_vec());
+                            }
+                        }
+                    } else {
+                        net.handle(w, *ep, dgram);
+                    }
+                }
+                false
+            });
+            out.witness("the server issued a write token to the stranger", token.is_some());
+        }
         let mode = if server { "server" } else { "client" };
         let mut died = false;
         while i < grams.len() {
@@ -365,10 +529,20 @@ fn live_unsolicited(server: bool, grams: &[(String, Vec<u8>)], out: &mut Partial
             out.add("executions", 1);
             out.add("live_datagrams", 1);
             w.send_raw_with_latency(stranger, a_addr, bytes.clone(), MS);
+            if let (Some(tok), true) = (token.as_ref(), label.starts_with("q-put") || label.starts_with("q-announce")) {
+                if !label.contains("a.token=") {
+                    if let Some(b2) = with_token(bytes, tok) {
+                        out.add("live_writes_with_valid_token", 1);
+                        w.send_raw_with_latency(stranger, a_addr, b2, 2 * MS);
+                    }
+                }
+            }
             let h = w.now + 5 * MS;
             w.run_until(h, |w, ev| {
                 if let Event::EndpointRecv { ep, dgram } = ev {
-                    net.handle(w, *ep, dgram);
+                    if *ep != stranger_ep {
+                        net.handle(w, *ep, dgram);
+                    }
                 }
                 false
             });
@@ -718,6 +892,7 @@ fn run(tier: Tier, shard: usize, nshards: usize, _seed: u64) -> Partial {
         structural(t, &mut sink);
         pairs(t, &mut sink);
         absent_subsets(t, &mut sink);
+        content_variants(t, &mut sink);
     }
     // ---- E1: live nodes
     let mut all_singles: Vec<(String, Vec<u8>)> = vec![];
@@ -738,6 +913,8 @@ fn run(tier: Tier, shard: usize, nshards: usize, _seed: u64) -> Partial {
             }
         };
         absent_subsets(t, &mut s2);
+        let mut s3 = |label: String, bytes: Vec<u8>| all_singles.push((label, bytes));
+        content_variants(t, &mut s3);
     }
     let my: Vec<(String, Vec<u8>)> = all_singles.iter().enumerate().filter(|(i, _)| i % nshards == shard).map(|(_, g)| g.clone()).collect();
     live_unsolicited(true, &my, &mut out);
